@@ -82,8 +82,10 @@ Section M.
       match last_dzsum (new - 1)%Z rows with
       | None => None
       | Some last =>
-        let lim := ls_thick L + last in
-        Some (map (fun r => if (r_dzsum r <=? lim) && is_unassigned r then set_asg r (Some a) else r) rows)
+        (* round(thickness + last, 2) >= round(profile.dzsum, 2): the sum is a numpy float64 (numpy's rounding), Series.round on the right
+           (since the repair of the unrounded comparison, which missed boundaries such as 0.1 + 0.35 < 0.45) *)
+        let lim := nround_np num_ops 2 (ls_thick L + last) in
+        Some (map (fun r => if (nround_np num_ops 2 (r_dzsum r) <=? lim) && is_unassigned r then set_asg r (Some a) else r) rows)
       end.
 
   Fixpoint add_layers (rows : list Row) (Ls : list LayerSpec) : option (list Row) :=
